@@ -142,4 +142,37 @@ theorem no_cyclic_wait {c : Cfg} {y : Sys} (hI : Inv c y) :
             rw [d2] at this
             exact ih Eu (by omega) u slu hwu
 
+/-- a thread that is inside an operation and not in a blocking (ticket-holding) wait can take a step:
+the operation's next action is enabled (a timed sleeper by its timeout), or it returns -/
+theorem active_enabled (c : Cfg) (y : Sys) (u : Nat) (hne : y.s.pc u ≠ .idle) (hw : (y.s.pc u).waitingOn c = none) :
+    ∃ y', Step c y y' := by
+  cases hp : y.s.pc u
+  case idle => exact absurd hp hne
+  case retd r => exact ⟨_, Step.ret y u r hp⟩
+  case sCbE sd i wake res =>
+    have : ∃ r, stepThread c y.s u { vals := [0] } = some r := by
+      cases sd <;> simp [stepThread, hp]
+    obtain ⟨⟨s', l⟩, h⟩ := this
+    exact ⟨_, Step.act y u _ s' l h⟩
+  case bCbE b =>
+    have : ∃ r, stepThread c y.s u { vals := List.replicate b.g.n 0 } = some r := by
+      cases hsd : b.g.sd <;> simp [stepThread, hp, hsd]
+    obtain ⟨⟨s', l⟩, h⟩ := this
+    exact ⟨_, Step.act y u _ s' l h⟩
+  case wait x w =>
+    cases x with
+    | single sd i wt wk => rw [hp] at hw; simp [Pc.waitingOn] at hw
+    | batch g j wt wk k => rw [hp] at hw; simp [Pc.waitingOn] at hw
+    | timed wk i num a b =>
+      have : ∃ r, stepThread c y.s u { timeout := true } = some r := by
+        cases w <;> simp [stepThread, hp, WCtx.isTimed] <;> (try split) <;> simp
+      obtain ⟨⟨s', l⟩, h⟩ := this
+      exact ⟨_, Step.act y u _ s' l h⟩
+  all_goals
+    have : ∃ r, stepThread c y.s u {} = some r := by
+      simp only [stepThread, hp]
+      (repeat' split) <;> simp
+    obtain ⟨⟨s', l⟩, h⟩ := this
+    exact ⟨_, Step.act y u _ s' l h⟩
+
 end Babylon.BQ
